@@ -269,11 +269,14 @@ PROPS['C10'] = {
     'level_text': 'Narrow: only the resource guards the property names. Complete Kani harnesses on the real code: BoundedVecWriter::write keeps |inner| <= max_len, '
                   'appends exactly the buffer or leaves the writer unchanged; ReaderUtils::read_to_vec fails before allocating whenever more is asked than is left, for all (len, pos, want) in u64^3; '
                   'BoxReader::read_super_box_impl refuses every depth >= MAX_JUMB_DEPTH before reading; BoxReader::read_header is total on any <= 16 bytes and decodes size / largesize.',
-    'level_note': 'NOT a proof that no input panics or hangs; parsers of the individual formats are outside reach. sizes <= 2^20 in the writer harness.',
+    'level_note': 'NOT a proof that no input panics or hangs: the proofs cover the named guards only; the format parsers are driven by a bounded native stand-in (forged size fields, tracking allocator) that is not counted as proved. sizes <= 2^20 in the writer harness.',
     'technique': TECH_K,
     'parts': [K('kani:resource_guards', 'sdk', [H('c10_bounded_writer_invariant'), H('c10_read_to_vec_guard'), H('c10_jumbf_depth_guard'), H('c10_read_header_total')], timeout=1500,
                 functions=[('sdk/src/utils/io_utils.rs', 'write', r'impl Write for BoundedVecWriter \{'), ('sdk/src/utils/io_utils.rs', 'read_to_vec'),
-                           ('sdk/src/jumbf/boxes.rs', 'read_header'), ('sdk/src/jumbf/boxes.rs', 'read_super_box_impl')])],
+                           ('sdk/src/jumbf/boxes.rs', 'read_header'), ('sdk/src/jumbf/boxes.rs', 'read_super_box_impl')]),
+              B('native:forged_size_fields', 'sdk', [{'name': 'c10_forged_size_fields_no_panic_no_huge_allocation', 'tier': 'quick'}],
+                functions=[('sdk/src/asset_handlers/riff_io.rs', 'read_cai', r'impl CAIReader for RiffIO \{')],
+                bounds='1561 forged files < 200 bytes of 10 container formats, size fields from 8 extreme values; own hint + every 5th with a broken signature under 13 hints; 8 MiB per-allocation limit (tracking global allocator)')],
     'trusted_base': TB_KANI,
     'rule': 'proof obligation = CBMC check of a complete harness',
     'not_covered': ['every format parser', 'stack depth', 'running time', 'CBOR / COSE / X.509 / brotli / XML decoders'],
